@@ -19,6 +19,7 @@ type c17Case struct {
 	Max      int    `json:"max"`
 	Linger   string `json:"linger"`   // "" | producer | consumer
 	Rerun    bool   `json:"rerun"`
+	Multi    string `json:"multi,omitempty"` // "" | "os+o" | "os+os": the producer has a second out-port `log` with its own consumer
 }
 
 func (c c17Case) desc() (*Desc, map[string]string) {
@@ -44,6 +45,18 @@ func (c c17Case) desc() (*Desc, map[string]string) {
 		{Name: "prod", Kind: "proc", Cmd: prod, Outs: map[string]string{"out": "{i:in}.stream"}},
 		{Name: "cons", Kind: "proc", Cmd: cons, Outs: map[string]string{"out": "{i:in}.copy"}}}
 	d.Edges = []Edge{{From: "src.out", To: "prod.in"}, {From: "prod.out", To: "cons.in"}}
+	if c.Multi != "" {
+		logPh := "{o:log}"
+		prodCmd := fmt.Sprintf(`( (cat {i:in} ; head -c %d /dev/zero | tr '\0' 'x') > {os:out} ; (echo LOG ; cat {i:in}) > %s%s )`, c.Bytes, "{o:log}", plinger)
+		if c.Multi == "os+os" {
+			logPh = "{os:log}"
+			prodCmd = fmt.Sprintf(`( ( (cat {i:in} ; head -c %d /dev/zero | tr '\0' 'x') > {os:out} ) & ( (echo LOG ; cat {i:in}) > %s ) ; wait%s )`, c.Bytes, logPh, plinger)
+		}
+		d.Nodes[1].Cmd = prodCmd
+		d.Nodes[1].Outs["log"] = "{i:in}.log"
+		d.Nodes = append(d.Nodes, Node{Name: "cons2", Kind: "proc", Cmd: `( cat {i:in} > {o:out} )`, Outs: map[string]string{"out": "{i:in}.copy2"}})
+		d.Edges = append(d.Edges, Edge{From: "prod.log", To: "cons2.in"})
+	}
 	return d, pre
 }
 
@@ -68,6 +81,12 @@ func runC17(ctx *Ctx, c c17Case) {
 		got, ok := readFile(rr.Dir, in+".stream.copy")
 		if !ok || sha(got) != sha(want) {
 			ctx.Res.Violate(Violation{What: fmt.Sprintf("consumer of item %d received %d bytes, the producer wrote %d (hash differs)", i, len(got), len(want)), Class: "c17.bytes", Witness: c})
+		}
+		if c.Multi != "" {
+			got2, ok2 := readFile(rr.Dir, in+".log.copy2")
+			if want2 := "LOG\n" + fmt.Sprintf("seed-%d\n", i); !ok2 || got2 != want2 {
+				ctx.Res.Violate(Violation{What: fmt.Sprintf("the consumer of the producer's second out-port got %q for item %d, expected %q", got2, i, want2), Class: "c17.second-port", Witness: c})
+			}
 		}
 		if fi, err := os.Lstat(filepath.Join(rr.Dir, in+".stream")); err == nil {
 			ctx.Res.Violate(Violation{What: fmt.Sprintf("a file exists at the streaming output path %s (mode %v)", in+".stream", fi.Mode()), Class: "c17.regular-file", Witness: c})
@@ -127,7 +146,7 @@ func summarize(a *auditJSON) string {
 }
 
 func checkC17(ctx *Ctx) {
-	ctx.Res.Rule = "producer -> {os:out} FIFO -> consumer pairs: n in 1..4 streamed items with maxConcurrentTasks >= 2n, payloads {0, 100, 65536, 200000} bytes (below and above the 64 KiB pipe buffer), producer-lingers / consumer-lingers / neither, then the history 'run again'; non-trivial = all; distinct by case. Checks: consumer's bytes = producer's bytes (sha256), no file at the streaming output path, FIFO removed, no leftovers, consumer's audit record names the producer as upstream, the re-run terminates and leaves the consumer's outputs untouched."
+	ctx.Res.Rule = "producer -> {os:out} FIFO -> consumer pairs: n in 1..4 streamed items with maxConcurrentTasks >= 2n, payloads {0, 100, 65536, 200000} bytes (below and above the 64 KiB pipe buffer), producer-lingers / consumer-lingers / neither, producers with a second ordinary or streaming out-port and its own consumer, then the history 'run again'; non-trivial = all; distinct by case. Checks: consumer's bytes = producer's bytes (sha256), no file at the streaming output path, FIFO removed, no leftovers, consumer's audit record names the producer as upstream, the re-run terminates and leaves the consumer's outputs untouched."
 	r := NewRng(ctx.Seed)
 	_ = ioutil.Discard
 	cases := []c17Case{}
@@ -140,7 +159,9 @@ func checkC17(ctx *Ctx) {
 			cases = append(cases, c17Case{N: n, Bytes: b, Max: 2*n + r.Intn(2), Linger: []string{"", "producer", "consumer"}[r.Intn(3)]})
 		}
 	}
-	cases = append(cases, c17Case{N: 1, Bytes: 100, Max: 2, Linger: "producer"}, c17Case{N: 1, Bytes: 100, Max: 2, Linger: "consumer"}, c17Case{N: 2, Bytes: 70000, Max: 4, Rerun: true})
+	cases = append(cases, c17Case{N: 1, Bytes: 100, Max: 2, Linger: "producer"}, c17Case{N: 1, Bytes: 100, Max: 2, Linger: "consumer"}, c17Case{N: 2, Bytes: 70000, Max: 4, Rerun: true},
+		// a producer with a streaming and a second (ordinary / streaming) out-port, each with its own consumer
+		c17Case{N: 3, Bytes: 100, Max: 9, Multi: "os+o"}, c17Case{N: 2, Bytes: 70000, Max: 6, Multi: "os+o", Linger: "producer"}, c17Case{N: 2, Bytes: 100, Max: 6, Multi: "os+os"})
 	parallel(len(cases), 4, func(i int) {
 		if ctx.TimeLeft() {
 			runC17(ctx, cases[i])
